@@ -2,7 +2,7 @@
   C04, object-layer memory safety as theorems — third continuation (same statement shape `Safe` as C04_allocsafe{,2,3}.lean:
   `ok = true`, destination well formed, every other variable untouched, value-level view = the list-level result; plus the
   integer identity).  Property theorems only; helper lemmas live in MpirProofs/Lemmas/AllocSafeCfdiv2.lean (mpz/cfdiv_q_2exp.c),
-  AllocSafeAorsmul.lean (mpz/aorsmul_i.c, aorsmul.c), AllocSafeMulC.lean (mpz/mul.c), AllocSafeTdiv.lean (mpz/tdiv_q.c, tdiv_r.c), AllocSafeMpf.lean (mpf/urandomb.c), AllocSafeSqrt.lean (mpz/sqrt.c), AllocSafeTdivQr.lean (mpz/tdiv_qr.c), AllocSafeSqrtrem.lean (mpz/sqrtrem.c).
+  AllocSafeAorsmul.lean (mpz/aorsmul_i.c, aorsmul.c), AllocSafeMulC.lean (mpz/mul.c), AllocSafeTdiv.lean (mpz/tdiv_q.c, tdiv_r.c), AllocSafeMpf.lean (mpf/urandomb.c), AllocSafeSqrt.lean (mpz/sqrt.c), AllocSafeTdivQr.lean (mpz/tdiv_qr.c), AllocSafeSqrtrem.lean (mpz/sqrtrem.c), AllocSafeSetD.lean (mpz/set_d.c).
 
   Models: Mpir/Model/AllocSafeMpz3.lean (cfdiv_q_2exp), Mpir/Model/AllocSafeMpz4.lean (everything else here).
   Tied by ops `as3_cdiv_q_2exp`, `as3_fdiv_q_2exp` (part c04_allocsafe3) and `as4_*` (harness/ops_allocsafe4.c; ALLOC SIZ value
@@ -17,6 +17,7 @@ import MpirProofs.Lemmas.AllocSafeMpf
 import MpirProofs.Lemmas.AllocSafeSqrt
 import MpirProofs.Lemmas.AllocSafeTdivQr
 import MpirProofs.Lemmas.AllocSafeSqrtrem
+import MpirProofs.Lemmas.AllocSafeSetD
 import MpirProofs.Props.C01_mpz
 namespace Mpir.AllocSafe
 open Mpir
@@ -367,5 +368,43 @@ example : (mpz_sqrtrem ex5 0 1 1).map (fun s => (s.ok, s.ALLOC 0, (s.h 0).size, 
 example : (mpz_sqrtrem ex5 1 0 1).map (fun s => (s.ok, s.ALLOC 1, (s.h 1).size, s.ALLOC 0)) = some (true, 3, 2, 3) := by decide
 -- negative: `_mpz_realloc (rem, op_size - 1)`
 example : (sqrtrem 1 ex5 3 0 1).map (fun s => s.ok) = some false := by decide
+
+/-! ## mpz_set_d (mpz/set_d.c) -/
+
+/-- mpz_set_d (mpz/set_d.c), d finite (the C raises the invalid-operation exception for NaN and ±∞), every allocation:
+    `_mpz_realloc (r, rn)` with `rn` the limb count __gmp_extract_double returns covers the zero fill of `rn - 2` limbs and the two
+    limbs of the double above it (one limb when rn = 1, nothing when |d| < 1: no reallocation for `rn <= 0`); the limbs and the
+    size are those of C11's value-level model `Conv.mpz_set_d`, i.e. d truncated towards zero. -/
+theorem mpz_set_d_alloc_safe (s : St) (r : Nat) (d : Nat) (hs : s.ok = true) (hr : OWF (s.h r)) (hfin : Conv.expOf d ≠ 2047) :
+    ∃ s' z, mpz_set_d s r d = some s' ∧ Conv.mpz_set_d d = some z ∧
+      Safe s s' r ⟨(Mpz.grow (view (s.h r)) (Conv.extract_double (Conv.absBits d)).2.2.toNat).alloc, z.size, z.d⟩ ∧
+      Mpz.toInt (view (s'.h r)) = (if Conv.sigOf d = 1 then -1 else 1) * ((Conv.dblNum d / 2 ^ 1074 : Nat) : Int) := by
+  obtain ⟨s', z, e1, e2, R, hz⟩ := set_d_refines s r d hs hr (finite_of_exp d hfin) (extract_double_limbs d hfin)
+  obtain ⟨z', e3, wf, tv⟩ := (Conv.set_d_spec d).2 hfin
+  rw [e2] at e3
+  cases e3
+  rw [← hz] at R
+  obtain ⟨ga1, ga2⟩ := Mpz.grow_alloc (view (s.h r)) (Conv.extract_double (Conv.absBits d)).2.2.toNat
+  have hnat : z.size.natAbs = (Conv.extract_double (Conv.absBits d)).2.2.toNat := by rw [hz, Mpz.natAbs_sgn]
+  have hWF : Mpz.WF ⟨(Mpz.grow (view (s.h r)) (Conv.extract_double (Conv.absBits d)).2.2.toNat).alloc, z.size, z.d⟩ := by
+    have h1 : 1 ≤ (view (s.h r)).alloc := hr.2.1
+    refine (Mpz.WF_iff _).mpr ⟨by show 1 ≤ (Mpz.grow (view (s.h r)) (Conv.extract_double (Conv.absBits d)).2.2.toNat).alloc; omega,
+      by show z.size.natAbs ≤ (Mpz.grow (view (s.h r)) (Conv.extract_double (Conv.absBits d)).2.2.toNat).alloc; omega,
+      wf.1, wf.2.1, ?_⟩
+    by_cases hd : z.d = []
+    · rw [hd]; simp
+    · exact wf.2.2 hd
+  refine ⟨s', z, e1, e2, R.safe hWF, ?_⟩
+  rw [R.view, ← tv]; rfl
+
+-- 2^64 (bits 0x43F0…) into a one-limb variable: block grown to rn = 2 limbs; -1.5 → -1; 2^-1022·… (|d| < 1) → 0 without realloc
+example : (mpz_set_d ex5 0 0x43F0000000000000).map (fun s => (s.ok, view (s.h 0))) = some (true, ⟨2, 2, [0, 1]⟩) := by decide
+example : (mpz_set_d ex5 1 0xBFF8000000000000).map (fun s => (s.ok, view (s.h 1))) = some (true, ⟨3, -1, [1]⟩) := by decide
+example : (mpz_set_d ex5 0 0x000FFFFFFFFFFFFF).map (fun s => (s.ok, view (s.h 0))) = some (true, ⟨1, 0, []⟩) := by decide
+example : mpz_set_d ex5 0 0x7FF8000000000000 = none := by decide
+-- 2^200: zero fill of two limbs below the two limbs of the double
+example : (mpz_set_d ex5 0 0x4C70000000000000).map (fun s => (s.ok, view (s.h 0))) = some (true, ⟨4, 4, [0, 0, 0, 256]⟩) := by decide
+-- negative: `_mpz_realloc (r, rn - 1)`
+example : (set_d 1 ex5 0 0x43F0000000000000).map (fun s => s.ok) = some false := by decide
 
 end Mpir.AllocSafe
